@@ -64,7 +64,7 @@ class ConfigManager(object):
                 fpath = os.path.join(config_dir, fname)
                 logger.debug("Trying %s" % fpath)
                 if os.path.isfile(fpath):
-                    return self._load_path(fpath)
+                    return self._load_path(fpath, detect_by_content=True)
 
                 exhausted.append(fpath)
 
@@ -81,16 +81,19 @@ class ConfigManager(object):
             if key == type:
                 return val
 
-    def _load_path(self, path):
+    def _load_path(self, path, detect_by_content=False):
         """
         :param path:
         :type path:
+        :param detect_by_content: do not trust the file extension (a profile's config file keeps its
+            name whatever serialize_type it was saved with)
+        :type detect_by_content: bool
         :return:
         :rtype:
         """
         logger.debug("_load_path(path=%s)" % path)
         if os.path.isfile(path):
-            configtype = self.guess_type(path)
+            configtype = self.guess_type(path, detect_by_content)
             logger.debug("Detected config type: %s" % self._type_to_str(configtype))
             if configtype in self.TYPES:
                 logger.debug("Opening config for reading")
@@ -107,9 +110,9 @@ class ConfigManager(object):
         logger.debug("Loading config")
         return ConfigSerialize(Config).deserialize(datadict)
 
-    def guess_type(self, config_path):
+    def guess_type(self, config_path, detect_by_content=False):
         dissected = os.path.splitext(config_path)
-        if len(dissected) > 1:
+        if len(dissected) > 1 and not detect_by_content:
             ext = dissected[1][1:].lower()
             config_type = self.MAP_EXT[ext] if ext in self.MAP_EXT else None
         else:
